@@ -347,7 +347,7 @@ end
 
 theorem prepare_fields {pct : Bool} {st : Stmt} {call : Call} {p : Prepared} (h : prepare pct st call = .ok p) :
     ∀ g ∈ wheresFields p.conj, g ∈ call.fields := by
-  obtain ⟨xs, ys, hx, hy, hc, _, _⟩ := prepare_ok h
+  obtain ⟨xs, ys, _, hx, hy, hc, _, _, _⟩ := prepare_ok h
   intro g hg
   rw [hc, wheresFields_toWheres_append, List.mem_append] at hg
   simp only [Call.fields, List.mem_append]
@@ -359,16 +359,27 @@ theorem prepare_fields {pct : Bool} {st : Stmt} {call : Call} {p : Prepared} (h 
     obtain ⟨ka, hka, rfl⟩ := this
     exact ⟨ka, (mem_sortKw ka _).mp hka, rfl⟩
 
+theorem cleanStr_iff (pct : Bool) (s : Str) : cleanStr pct s = true ↔ s.count (marker pct) = 0 := by
+  simp [cleanStr]
+
 /-- one placeholder mark per bound value -/
 theorem prepare_count {pct : Bool} {st : Stmt} {call : Call} {p : Prepared} (h : prepare pct st call = .ok p)
-    (hf : ∀ f ∈ call.fields, f.count (marker pct) = 0)
-    (hs : st.selectFrom.count (marker pct) = 0)
-    (hg : ∀ g, st.groupBy = some g → g.count (marker pct) = 0)
-    (ho : ∀ o, st.orderBy = some o → o.count (marker pct) = 0) :
-    p.text.count (marker pct) = p.params.length := by
-  obtain ⟨xs, ys, hx, hy, hc, ht, hb⟩ := prepare_ok h
-  rw [sqlText_count pct st p.conj p.text ht (fun f hm => hf f (prepare_fields h f hm)) hs hg ho]
-  rw [bindAll_length hb, hc, slots_toWheres]
+    (hc : clean pct st call = true) : p.text.count (marker pct) = p.params.length := by
+  obtain ⟨xs, ys, ord, hx, hy, hcj, hord, ht, hb⟩ := prepare_ok h
+  simp only [clean, Bool.and_eq_true, List.all_eq_true, hord] at hc
+  obtain ⟨⟨⟨hs, hg⟩, hf⟩, ho⟩ := hc
+  rw [sqlText_count pct _ p.conj p.text ht
+    (fun f hm => (cleanStr_iff pct f).mp (hf f (prepare_fields h f hm)))
+    ((cleanStr_iff pct _).mp hs)
+    (fun g hgb => by
+      simp only [] at hgb
+      rw [hgb] at hg
+      exact (cleanStr_iff pct g).mp hg)
+    (fun o hob => by
+      simp only [] at hob
+      subst hob
+      exact (cleanStr_iff pct o).mp ho)]
+  rw [bindAll_length hb, hcj, slots_toWheres]
 
 /-! ## the text does not depend on the values -/
 
@@ -525,26 +536,59 @@ theorem bindAll_erase (as : List Arg) :
     | list vs => rfl
     | set vs => rfl
 
+theorem filterKwargs_eraseTopKw (kw : List (Str × Arg)) :
+    filterKwargs (eraseTopKw kw) = eraseKw (filterKwargs kw) := by
+  induction kw with
+  | nil => rfl
+  | cons x xs ih =>
+    simp only [eraseTopKw, filterKwargs, eraseKw, List.map_cons, List.filter_cons] at ih ⊢
+    by_cases hk : isOptionKey x.1 = true
+    · simp [hk, ih]
+    · simp [hk, ih]
+
+theorem lookupKw_eraseTopKw (k : Str) (hk : isOptionKey k = true) (kw : List (Str × Arg)) :
+    lookupKw k (eraseTopKw kw) = lookupKw k kw := by
+  induction kw with
+  | nil => rfl
+  | cons x xs ih =>
+    obtain ⟨k', a⟩ := x
+    simp only [eraseTopKw, List.map_cons] at ih ⊢
+    by_cases ho : isOptionKey k' = true
+    · simp [ho, lookupKw, ih]
+    · simp only [ho, Bool.false_eq_true, if_false, lookupKw]
+      have : k' ≠ k := fun e => ho (e ▸ hk)
+      simp [this, ih]
+
+theorem orderKey_isOption : isOptionKey Gen.C15.orderKey = true := by simp [isOptionKey]
+
+theorem orderClause_erase (st : Stmt) (kw : List (Str × Arg)) :
+    orderClause st (eraseTopKw kw) = orderClause st kw := by
+  simp [orderClause, lookupKw_eraseTopKw _ orderKey_isOption]
+
 /-- forgetting the values of a call changes nothing but the bound values -/
 theorem prepare_erase (pct : Bool) (st : Stmt) (call : Call) :
     prepare pct st call.erase = (prepare pct st call).map Prepared.erase := by
-  simp only [prepare, filters, Call.erase, filterMap_eraseArgs, mkConds_erase, sortKw_erase, mkKw_erase,
-    bind, Except.bind]
+  simp only [prepare, filters, Call.erase, filterMap_eraseArgs, mkConds_erase, filterKwargs_eraseTopKw,
+    sortKw_erase, mkKw_erase, orderClause_erase, bind, Except.bind]
   cases mkConds (call.args.filterMap id) with
   | error e => rfl
   | ok xs =>
     simp only [Except.map]
-    cases mkKw (sortKw call.kwargs) with
+    cases mkKw (sortKw (filterKwargs call.kwargs)) with
     | error e => rfl
     | ok ys =>
       simp only [Except.map, pure, Except.pure, ← eraseNConds_append, toWheres_erase, bindAll_erase]
-      cases sqlText pct st (toWheres (xs ++ ys)).1 with
+      cases orderClause st call.kwargs with
       | error e => rfl
-      | ok t =>
+      | ok ord =>
         simp only []
-        cases bindAll (toWheres (xs ++ ys)).2 with
+        cases sqlText pct { st with orderBy := ord } (toWheres (xs ++ ys)).1 with
         | error e => rfl
-        | ok vs => rfl
+        | ok t =>
+          simp only []
+          cases bindAll (toWheres (xs ++ ys)).2 with
+          | error e => rfl
+          | ok vs => rfl
 
 /-! ## nothing but `ValueError`, `AttributeError` or a refused parameter -/
 
@@ -664,21 +708,44 @@ theorem bindAll_fail {as : List Arg} {e : Fail} (h : bindAll as = .error e) : e 
     | list _ => simp [bindAll] at h; exact h.symm
     | set _ => simp [bindAll] at h; exact h.symm
 
+theorem orderClause_fail {st : Stmt} {kw : List (Str × Arg)} {e : Fail} (h : orderClause st kw = .error e) :
+    e = .py .typeError ∧ ∃ a, lookupKw Gen.C15.orderKey kw = some a ∧ a ≠ .scalar .null ∧
+      ∀ s, a ≠ .scalar (.text s) := by
+  unfold orderClause at h
+  cases hl : lookupKw Gen.C15.orderKey kw with
+  | none => simp [hl] at h
+  | some a =>
+    simp only [hl] at h
+    cases a with
+    | scalar v =>
+      cases v with
+      | null => simp at h
+      | int i => simp at h; exact ⟨h.symm, _, rfl, by simp, by simp⟩
+      | text s => simp at h
+    | list vs => simp at h; exact ⟨h.symm, _, rfl, by simp, by simp⟩
+    | set vs => simp at h; exact ⟨h.symm, _, rfl, by simp, by simp⟩
+
 theorem prepare_fail {pct : Bool} {st : Stmt} {call : Call} {e : Fail} (h : prepare pct st call = .error e) :
-    CtorFail e ∨ e = .bind := by
+    CtorFail e ∨ e = .bind ∨
+      (e = .py .typeError ∧ ∃ a, lookupKw Gen.C15.orderKey call.kwargs = some a ∧ a ≠ .scalar .null ∧
+        ∀ s, a ≠ .scalar (.text s)) := by
   simp only [prepare, filters, bind, Except.bind] at h
   cases hx : mkConds (call.args.filterMap id) with
   | error err => simp [hx] at h; subst h; exact Or.inl (mkConds_fail _ _ hx)
   | ok xs =>
-    cases hy : mkKw (sortKw call.kwargs) with
+    cases hy : mkKw (sortKw (filterKwargs call.kwargs)) with
     | error err => simp [hx, hy] at h; subst h; exact Or.inl (mkKw_fail _ _ hy)
     | ok ys =>
       simp only [hx, hy, pure, Except.pure] at h
-      obtain ⟨t, ht⟩ := sqlText_ok pct st (toWheres (xs ++ ys)).1
-      simp only [ht] at h
-      cases hb : bindAll (toWheres (xs ++ ys)).2 with
-      | error err => simp [hb] at h; subst h; exact Or.inr (bindAll_fail hb)
-      | ok vs => simp [hb] at h
+      cases ho : orderClause st call.kwargs with
+      | error err => simp [ho] at h; subst h; exact Or.inr (Or.inr (orderClause_fail ho))
+      | ok ord =>
+        simp only [ho] at h
+        obtain ⟨t, ht⟩ := sqlText_ok pct { st with orderBy := ord } (toWheres (xs ++ ys)).1
+        simp only [ht] at h
+        cases hb : bindAll (toWheres (xs ++ ys)).2 with
+        | error err => simp [hb] at h; subst h; exact Or.inr (Or.inl (bindAll_fail hb))
+        | ok vs => simp [hb] at h
 
 /-! ## reading a piece of generated text -/
 
